@@ -52,6 +52,14 @@ func init() {
 			c16UserEval(e, &c)
 		},
 		"attr-list": func(e *Env, raw json.RawMessage) { c16AttrList(e) },
+		"builtin-seq": func(e *Env, raw json.RawMessage) {
+			m, err := newModel(e)
+			if err != nil {
+				panic(err)
+			}
+			c := decode[playCase](raw)
+			c01Eval(e, m, &c, true)
+		},
 	}})
 }
 
@@ -402,8 +410,43 @@ func runC16(e *Env) {
 		e.R.State("lookup:" + l)
 		e.R.NonTrivial("lookup:" + l)
 	}
+	// a look-up must not be disturbed by the look-ups around it: [A B A] for every ordered pair
+	var seqN int64
+	type pr struct{ a, b string }
+	var prs []pr
+	for _, a := range lookups {
+		for _, b := range lookups {
+			if a != b {
+				prs = append(prs, pr{a, b})
+			}
+		}
+	}
+	key, _ := theory.ParseKey("C")
+	mc.ParFor(len(prs), func(i int) {
+		p := prs[i]
+		c := playCase{Path: "lib"}
+		for _, s := range []string{p.a, p.b, p.a} {
+			c.Insts = append(c.Insts, refplay.Inst{Chord: &refplay.Chord{Degree: iv("1"), Symbol: s}, Values: one()})
+		}
+		res := runWrite("lib", refplay.YAML(c.Insts), writeCfg{})
+		atomic.AddInt64(&seqN, 1)
+		e.R.Eval(1)
+		if res.Err != "" {
+			return // playability is judged above
+		}
+		f, err := smf.Parse(res.Bytes)
+		if err != nil {
+			return
+		}
+		_, groups := noteOnGroups(f)
+		want, _ := chordPitches(m, key, c.Insts[2].Chord)
+		if len(groups) == 3 && !eqInts(groups[2], want) {
+			c.fill()
+			e.R.Fail(ev.Fail{Class: "C16/builtin-meaning-in-sequence", Msg: fmt.Sprintf("%q played after %q and %q sounds %v, its definition means %v", p.a, p.a, p.b, groups[2], want), Kind: "builtin-seq", Case: c})
+		}
+	})
 	c16AttrList(e)
-	e.R.AddPart(ev.Part{Name: "built-ins", Enumerated: "46 look-ups x {in-process, real binary}; 67 attributes; gen attr = info attr list = embedded file", Executions: int64(2*len(lookups) + 67 + 1), States: int64(len(lookups)), Transitions: int64(2 * len(lookups)), Exhaustive: true})
+	e.R.AddPart(ev.Part{Name: "built-ins", Enumerated: "46 look-ups x {in-process, real binary}; every ordered pair of look-ups as the sequence [A B A]; 67 attributes; gen attr = info attr list = embedded file", Executions: int64(2*len(lookups)+67+1) + seqN, States: int64(len(lookups)), Transitions: int64(2 * len(lookups)), Exhaustive: true})
 
 	// user dictionaries
 	n := 2
